@@ -21,7 +21,9 @@ pub fn dispatch(ctx: &mut Ctx) {
     // monitors that run several random-case loops one after another share the time budget between them
     ctx.sections = match ctx.prop.as_str() {
         "C13" => 3,
-        "C05" | "C06" | "C10" | "C11" | "C20" | "C25" | "C30" | "C32" => 2,
+        // (C05 is left out on purpose: its three builds must produce logs that are prefixes of one another, so it may
+        // only ever be cut at the very end)
+        "C06" | "C10" | "C11" | "C20" | "C25" | "C30" | "C32" => 2,
         _ => 1,
     };
     match ctx.prop.as_str() {
